@@ -26,8 +26,8 @@ EPS = 2.0 ** -20
 
 
 def configs(tier):
-  shapes_q = [(3,), (2, 2), (2, 3)]
-  shapes_t = shapes_q + [(1,), (1, 3), (2, 2, 2), (3, 2, 2), (2, 2, 2, 2)]
+  shapes_q = [(3,), (2, 2), (2, 3), (2, 2, 2)]
+  shapes_t = shapes_q + [(1,), (1, 3), (3, 2, 2), (2, 3, 2), (2, 2, 2, 2)]
   out = []
   shapes = shapes_q if tier == 'quick' else shapes_t
   for sh in shapes:
@@ -36,6 +36,8 @@ def configs(tier):
       if tier == 'quick':
         if sh == (2, 2):
           opts += [(0.75, 0.0, False), (0.0, 0.125, False), (0.0, 0.0, True)]
+        if sh == (2, 2, 2):
+          opts = [(0.0, 0.0, False)] if b2 == 1.0 else []
       else:
         opts += [(0.75, 0.0, False), (0.0, 0.125, False), (0.75, 0.125, False)]
         if len(sh) <= 2:
